@@ -138,6 +138,25 @@ func VerifC14Raft() {
 		create(uint64(1+verifrt.Choose("create-via", 2)), n)
 		n++
 	}
+	// a third member that joined early may be down while a dataset is deleted and the
+	// leader compacts: it still lists the dataset and is caught up by a snapshot
+	var laggard uint64
+	if members >= 3 && verifrt.Bound("lagdelete", 0) == 1 {
+		if !join(3) {
+			verifrt.Reach("end")
+			return
+		}
+		tick(10)
+		if verifrt.Choose("member-down-during-delete", 2) == 1 {
+			laggard = 3
+			live[3].zeroGroup.Stop()
+			live[3].datasetManager.Close()
+			delete(live, 3)
+			delete(v.servers, addr(3))
+			tick(2)
+			verifrt.Tag("member-down-during-delete")
+		}
+	}
 	if len(created) > 0 && verifrt.Choose("delete-first", 2) == 1 {
 		via := uint64(1 + verifrt.Choose("delete-via", 2))
 		id, _ := uuidFromBytes(created[0])
@@ -158,7 +177,14 @@ func VerifC14Raft() {
 			verifrt.Tag("after-compaction")
 		}
 	}
-	if members >= 3 && verifrt.Choose("late-joiner", 2) == 1 {
+	if laggard != 0 {
+		if start(laggard) == nil {
+			return
+		}
+		async(live[laggard].JoinCluster, 150)
+		verifrt.Tag("laggard-back")
+	}
+	if members >= 3 && verifrt.Bound("lagdelete", 0) == 0 && verifrt.Choose("late-joiner", 2) == 1 {
 		if !join(3) {
 			verifrt.Reach("end")
 			return
@@ -225,7 +251,10 @@ func VerifC14Raft() {
 	}
 	verifrt.Reach("settled")
 	settle("every-member-lists-the-same-catalogue-with-every-acknowledged-create-and-no-acknowledged-delete")
-	rid := uint64(verifrt.IntIn("restart-member", 0, members))
+	rid := uint64(0)
+	if verifrt.Bound("norestart", 0) == 0 {
+		rid = uint64(verifrt.IntIn("restart-member", 0, members))
+	}
 	if s, ok := live[rid]; ok {
 		s.zeroGroup.Stop()
 		s.datasetManager.Close()
